@@ -51,10 +51,22 @@ fn main() {
                 } else {
                     String::new()
                 };
-                let call = if ctx == "-" {
+                let call = if flags.contains("macro") {
+                    // the same grammar through the peginate! macro: outcomes must be identical
+                    format!(
+                        "{{ let a = verif_common::run_plain::<grammar::{root}>(gid, input, ind); \
+                            let b = verif_common::run_plain::<mac::{root}>(gid, input, ind); \
+                            format!(\"{{}},\\\"macro_same\\\":{{}}}}}}\", &a[..a.len() - 1], a == b) }}"
+                    )
+                } else if ctx == "-" {
                     format!("verif_common::run_plain::<grammar::{root}>(gid, input, ind)")
                 } else {
                     format!("verif_common::run_ctx::<{ctx}, grammar::{root}>(gid, input, ind)")
+                };
+                let mac = if flags.contains("macro") {
+                    format!("pub mod mac {{ peginator_macro::peginate!(r####\"{text}\"####); }}")
+                } else {
+                    String::new()
                 };
                 let _ = writeln!(
                     cases,
@@ -62,6 +74,7 @@ fn main() {
                      pub mod g_{id} {{\n\
                          pub mod grammar {{ #![forbid(unsafe_code)] include!(concat!(env!(\"OUT_DIR\"), \"/{id}.rs\")); }}\n\
                          pub mod user {{ #![allow(unused)] use super::grammar::*; pub use verif_common::oracles::*; {user_inc} }}\n\
+                         {mac}\n\
                          pub fn run(gid: &str, input: &str, ind: bool) -> String {{ {call} }}\n\
                      }}"
                 );
